@@ -144,7 +144,15 @@ pub fn gen_items(seed: u64, salt: &str, n: usize, start: usize) -> Vec<Item> {
             // three of four definitions keep anonymous types out of error parameters (known class K2)
             let mut o = o.clone();
             o.plain_error_params = (start + k) % 4 != 0;
-            let idl = gen_idl(&mut t, &o);
+            let mut idl = gen_idl(&mut t, &o);
+            if (start + k) % 2 == 1 {
+                // every other definition starts with a documentation comment (so the text handed to
+                // a front-end does not begin with the keyword) and documents its first member
+                idl.docs = vec!["# Definition for tests".to_string(), "# (generated)".to_string()];
+                if let Some(m) = idl.members.first_mut() {
+                    m.docs = vec!["# first member".to_string()];
+                }
+            }
             let text = print_idl(&idl);
             let class = known_class(&idl);
             Item { idx: start + k, idl, text, fe: FRONT_ENDS[(start + k) % FRONT_ENDS.len()], class }
